@@ -19,6 +19,7 @@
     Impl ⊑ Spec ........................................... impl_refines_spec
 -/
 import Aqv.Lemmas.Tx
+import Aqv.Lemmas.TxVm
 import Aqv.Lemmas.Translated.Tx
 namespace Aqv.Props.C06
 open Aqv.Tx
@@ -649,6 +650,119 @@ example : (match process (scriptEnv 2 0 none 0) id id 100000 [m0, { m0 with nonc
     [(21000, 21000, false, false), (42000, 21000, false, false)] := by decide
 -- … and the same block with the second nonce wrong is refused as a whole
 example : (process (scriptEnv 2 0 none 0) id id 100000 [m0, { m0 with nonce := 7 }] w0).toOption.isNone = true := by decide
+
+/-! ## over the modelled interpreter (C07): the contract `EvmOk` is a theorem, not a hypothesis
+
+  `TxVm.vmEnv venv orc …` is the environment whose `run` IS `Vm.topCall` / `Vm.topCreate` of the C07 machine (world type = the
+  C06 state, gas taken mod 2^64, fuel = gas + 1, fresh journal). `evm_contract_over_vm` proves `EvmOk` for it from the C07
+  theorems leftover_le_given_call/create, frame_failure_reverts_call/create, call/create_terminates, no_modelled_panic.
+  What remains assumed is stated in `TxVm.OracleOk` (the machine does not interpret the world, so its oracle must answer the
+  top-level CanTransfer truthfully and its Create nonce effect must be SetNonce(caller, nonce+1)), `Vm.EnvOK` (the gas table is
+  one of the generated ones) and — only for `nonce_plus_one` / `impl_refines_spec` — `SenderIsEOA`. -/
+
+open Aqv.TxVm
+
+/-- **evm_contract_over_vm.** gas left ≤ gas given, ErrInsufficientBalance ⇔ CanTransfer fails, failed Call = entry state,
+    failed Create = entry state + creator's nonce bump (Homestead): all four clauses for the C07 machine, every oracle. -/
+theorem evm_contract_over_vm (venv : Vm.Env) (hE : Vm.EnvOK venv) (orc : Oracle ρ) (hO : OracleOk orc)
+    (refund : World ρ → Nat) (fin : World ρ → World ρ) (cb : Addr) : EvmOk (vmEnv venv orc refund fin cb) :=
+  vmEnv_ok venv hE orc hO refund fin cb
+
+section OverVm
+variable (venv : Vm.Env) (hE : Vm.EnvOK venv) (orc : Oracle ρ) (hO : OracleOk orc)
+  (refund : World ρ → Nat) (fin : World ρ → World ρ) (cb : Addr) {m : Msg} {gp : Nat} {w : World ρ} {r : TxOk ρ}
+include hE hO
+
+/-- **gas_bounds_partial_over_vm.** -/
+theorem gas_bounds_partial_over_vm (h : transitionDb (vmEnv venv orc refund fin cb) m gp w = .ok r) :
+    ∃ ig refund', intrinsicGas m.data m.to.isNone venv.homestead = some ig ∧
+      r.usedGas ≤ m.gas ∧
+      refund' ≤ (m.gas - (vmRun venv orc m (m.gas - ig) (preWorld m w)).gasLeft) / 2 ∧
+      refund' ≤ refund (vmRun venv orc m (m.gas - ig) (preWorld m w)).world ∧
+      r.usedGas + refund' = m.gas - (vmRun venv orc m (m.gas - ig) (preWorld m w)).gasLeft ∧
+      ig ≤ r.usedGas + refund' ∧ ig ≤ 2 * r.usedGas ∧
+      (refund (vmRun venv orc m (m.gas - ig) (preWorld m w)).world = 0 → ig ≤ r.usedGas) :=
+  gas_bounds_partial (vmEnv_ok venv hE orc hO refund fin cb) h
+
+/-- **failed_exec_only_gas_over_vm.** A failed execution of the modelled interpreter leaves only the nonce bump and the gas
+    payment (Homestead rules). -/
+theorem failed_exec_only_gas_over_vm (hHs : venv.homestead = true)
+    (h : transitionDb (vmEnv venv orc refund fin cb) m gp w = .ok r) (hf : r.failed = true) :
+    r.world.rest = w.rest ∧
+    (∀ a, lookup r.world.nonce a = if a = m.sender then nonceInc (lookup w.nonce m.sender) else lookup w.nonce a) ∧
+    (∀ a, a ≠ m.sender → a ≠ cb → lookup r.world.bal a = lookup w.bal a) ∧
+    (cb ≠ m.sender →
+      lookup r.world.bal m.sender + r.usedGas * m.gasPrice = lookup w.bal m.sender ∧
+      lookup r.world.bal cb = lookup w.bal cb + r.usedGas * m.gasPrice) ∧
+    (cb = m.sender → lookup r.world.bal m.sender = lookup w.bal m.sender) :=
+  failed_exec_only_gas (vmEnv_ok venv hE orc hO refund fin cb) hHs h hf
+
+/-- **sender_debit_over_vm.** -/
+theorem sender_debit_over_vm (h : transitionDb (vmEnv venv orc refund fin cb) m gp w = .ok r) :
+    ∃ ig, intrinsicGas m.data m.to.isNone venv.homestead = some ig ∧
+      lookup r.world.bal m.sender =
+        lookup (vmRun venv orc m (m.gas - ig) (preWorld m w)).world.bal m.sender + (m.gas - r.usedGas) * m.gasPrice
+          + (if cb = m.sender then r.usedGas * m.gasPrice else 0) ∧
+      lookup (preWorld m w).bal m.sender + m.gas * m.gasPrice = lookup w.bal m.sender :=
+  sender_debit (vmEnv_ok venv hE orc hO refund fin cb) h
+
+/-- **sender_debit_failed_over_vm.** -/
+theorem sender_debit_failed_over_vm (hHs : venv.homestead = true)
+    (h : transitionDb (vmEnv venv orc refund fin cb) m gp w = .ok r) (hf : r.failed = true) (hc : cb ≠ m.sender) :
+    lookup r.world.bal m.sender + r.usedGas * m.gasPrice = lookup w.bal m.sender :=
+  sender_debit_failed (vmEnv_ok venv hE orc hO refund fin cb) hHs h hf hc
+
+/-- **sender_debit_success_plain_over_vm.** -/
+theorem sender_debit_success_plain_over_vm (h : transitionDb (vmEnv venv orc refund fin cb) m gp w = .ok r) (hc : cb ≠ m.sender)
+    (hplain : ∀ ig, lookup (vmRun venv orc m (m.gas - ig) (preWorld m w)).world.bal m.sender + m.value = lookup (preWorld m w).bal m.sender) :
+    lookup r.world.bal m.sender + r.usedGas * m.gasPrice + m.value = lookup w.bal m.sender :=
+  sender_debit_success_plain (vmEnv_ok venv hE orc hO refund fin cb) h hc hplain
+
+/-- **coinbase_credit_over_vm.** -/
+theorem coinbase_credit_over_vm (h : transitionDb (vmEnv venv orc refund fin cb) m gp w = .ok r) :
+    ∃ ig, intrinsicGas m.data m.to.isNone venv.homestead = some ig ∧
+      lookup r.world.bal cb =
+        lookup (vmRun venv orc m (m.gas - ig) (preWorld m w)).world.bal cb + r.usedGas * m.gasPrice
+          + (if cb = m.sender then (m.gas - r.usedGas) * m.gasPrice else 0) :=
+  coinbase_credit (vmEnv_ok venv hE orc hO refund fin cb) h
+
+/-- **pool_conserved_over_vm.** -/
+theorem pool_conserved_over_vm (h : transitionDb (vmEnv venv orc refund fin cb) m gp w = .ok r) : r.gp + r.usedGas = gp ∧ m.gas ≤ gp :=
+  pool_conserved (vmEnv_ok venv hE orc hO refund fin cb) h
+
+/-- **tx_accepted_iff_over_vm.** The validity predicate of the statement is the acceptance condition over the interpreter. -/
+theorem tx_accepted_iff_over_vm (m : Msg) (gp : Nat) (w : World ρ) (hgp : gp ≤ uint64Max) :
+    (∃ r, transitionDb (vmEnv venv orc refund fin cb) m gp w = .ok r) ↔ ¬ Invalid (vmEnv venv orc refund fin cb) m gp w :=
+  tx_accepted_iff (vmEnv_ok venv hE orc hO refund fin cb) m gp w hgp
+
+/-- **invalid_tx_invalidates_block_over_vm.** -/
+theorem invalid_tx_invalidates_block_over_vm (hf fz : World ρ → World ρ) (limit : Nat)
+    (pre : List Msg) (m : Msg) (post : List Msg) (w : World ρ) {b : BlockOk ρ}
+    (hpre : processTxs (vmEnv venv orc refund fin cb) pre limit (hf w) 0 = .ok b) (hinv : Invalid (vmEnv venv orc refund fin cb) m b.gp b.world) :
+    ∃ e, process (vmEnv venv orc refund fin cb) hf fz limit (pre ++ m :: post) w = .error e :=
+  invalid_tx_invalidates_block (vmEnv_ok venv hE orc hO refund fin cb) hf fz limit pre m post w hpre hinv
+
+/-- **process_gas_le_limit_over_vm.** -/
+theorem process_gas_le_limit_over_vm (hf fz : World ρ → World ρ) (limit : Nat) (ms : List Msg) (w : World ρ) {b : BlockOk ρ}
+    (h : process (vmEnv venv orc refund fin cb) hf fz limit ms w = .ok b) :
+    b.usedGas = sumGas b.receipts ∧ b.usedGas ≤ limit ∧ CumOk 0 b.receipts ∧ b.gp + b.usedGas = limit :=
+  process_gas_le_limit (vmEnv_ok venv hE orc hO refund fin cb) hf fz limit ms w h
+
+end OverVm
+
+/-- non-vacuity over the real machine: a callee that is a single `INVALID` (0xfe) under the spring rule set of C07 — the frame
+    fails, all 9000 gas is consumed, the value stays with the sender; and a callee that is `STOP`. -/
+def invalidOrc (op : Nat) : Oracle Nat := fun m _ w _ =>
+  { op := op, args := [], canTransfer := decide (m.value ≤ lookup w.bal m.sender),
+    nonceEff := fun w' => setNonce w' m.sender (nonceInc (lookup w'.nonce m.sender)),
+    xferEff := fun w' => addBal (subBal w' m.sender m.value) 3 m.value }
+
+theorem invalidOrc_ok (op : Nat) : OracleOk (invalidOrc op) := ⟨fun _ _ _ => rfl, fun _ _ _ _ => rfl⟩
+
+example : summary (transitionDb (vmEnv Props.C07.envSpring (invalidOrc 0xfe) (fun w => w.rest) id 2) m0 100000 w0) [1, 2, 3] =
+    some (30000, true, 70000, [(1000000 - 60000, 6), (50 + 60000, 0), (0, 0)]) := by decide
+example : summary (transitionDb (vmEnv Props.C07.envSpring (invalidOrc 0x00) (fun w => w.rest) id 2) m0 100000 w0) [1, 2, 3] =
+    some (21000, false, 79000, [(1000000 - 42000 - 100, 6), (50 + 42000, 0), (100, 0)]) := by decide
 
 /-- **builtin_configs_homestead** (T-gen). Every built-in chain configuration is Homestead from block 0, so the hypothesis
     `env.homestead = true` of `failed_exec_only_gas` holds on all of them (pre-Homestead rules keep a creation whose code
